@@ -1,6 +1,7 @@
 import Prism.Proofs.C17
 import Prism.Proofs.C17Profile
 import Prism.Proofs.C17Text
+import Prism.Proofs.C17Utf8
 
 #print axioms Prism.Icc.C17_desc_by_signature
 #print axioms Prism.Icc.C17_tag_slice
@@ -15,3 +16,5 @@ import Prism.Proofs.C17Text
 #print axioms Prism.Icc.C17_utf16_roundtrip
 #print axioms Prism.Icc.C17_units_of_be
 #print axioms Prism.Icc.C17_text_roundtrip
+#print axioms Prism.Icc.C17_utf8_roundtrip
+#print axioms Prism.Icc.C17_utf8_length
